@@ -11,15 +11,15 @@ CONSTANTS
   RotAt = 1000
   StartN = 996
   PauseAt = 2
-  MaxMsgs1 = 1
+  MaxMsgs1 = 3
   MaxMsgs2 = 0
   MaxOps = 30
   MaxTampers = 1
   MaxBudgetOps = 0
   MaxDisc = 0
   CutReads = TRUE
-  CutHandshake = FALSE
-  EmitEvery = 2
+  CutHandshake = TRUE
+  EmitEvery = 8
 CONSTRAINT Bound
 VIEW View
 INVARIANT ExactDelivery
